@@ -114,6 +114,33 @@ func DecodeInProc(b []byte, t reflect.Type) Outcome {
 	return o
 }
 
+// DecodeServiceInProc runs ua.DecodeService (type id, service registry lookup, body) in this process, guarded like
+// DecodeInProc. The result names the looked-up type, so the registry step is part of the compared outcome.
+func DecodeServiceInProc(b []byte) Outcome {
+	if b == nil {
+		b = []byte{}
+	}
+	var o Outcome
+	g := Guard(20*time.Second, 6<<30, func() {
+		defer func() {
+			if e := recover(); e != nil {
+				o.Res = "fail " + PanicKind(fmt.Sprint(e))
+				o.Stack = string(debug.Stack())
+			}
+		}()
+		id, v, err := ua.DecodeService(b)
+		if err != nil {
+			o.Res = "fail err"
+			return
+		}
+		o.Res = fmt.Sprintf("ok %s %s %s", Print(id), reflect.TypeOf(v).Elem().Name(), Print(v))
+	})
+	if g != "" {
+		return Outcome{Res: "fail " + g}
+	}
+	return o
+}
+
 var allocSample = []metrics.Sample{{Name: "/gc/heap/allocs:bytes"}}
 
 // AllocBytes is the cumulative number of heap bytes allocated by this process (no stop-the-world).
